@@ -51,3 +51,54 @@ _vr = REG.contracts["VerificationRule.from_dict"]
 _vr.ghost = {"loaded": Fun("loaded_strategy")}
 _vr.call_models = {"AbstractStrategy.from_dict": "loaded"}
 _vr.ensures = list(_vr.ensures) + ['result == last_result("prov:loaded_strategy")']
+
+# ------------------------------------------------------------------ strategies, packs, specifications: key sets
+FST = "comb_spec_searcher/strategies/strategy.py"
+FPK = "comb_spec_searcher/strategies/strategy_pack.py"
+FSP = "comb_spec_searcher/specification.py"
+_SD = ['"class_module"', '"strategy_class"']
+for _c, _b in (("AbstractStrategy", None), ("VerificationStrategy", "AbstractStrategy"), ("AtomStrategy", "VerificationStrategy"),
+               ("EmptyStrategy", "VerificationStrategy"), ("StrategyFactory", None)):
+    if _c not in REG.classes:
+        klass(FST, _c, bases=[_b] if _b else [], fields={})
+_SKEYS = {
+    "AbstractStrategy": _SD + ['"ignore_parent"', '"inferrable"', '"possibly_empty"', '"workable"'],
+    "VerificationStrategy": _SD + ['"ignore_parent"'],
+    "AtomStrategy": _SD,
+    "EmptyStrategy": _SD,
+    "StrategyFactory": _SD,
+}
+for _c, _keys in _SKEYS.items():
+    contract(FST, f"{_c}.to_jsonable", props=["C18"], lenient=True, aliases={"Any": Any},
+             params={"self": Obj(_c)}, returns=JD, ensures=["fresh(result)", "keys_are(result, " + ", ".join(_keys) + ")"],
+             modifies=[], self_invariant=False, notes="keys written by the serialiser")
+for _c in ("AtomStrategy", "EmptyStrategy"):
+    contract(FST, f"{_c}.from_dict", props=["C18"], lenient=True, aliases={"Any": Any},
+             params={"d": JD}, requires=["keys_are(d)"], returns=Any, modifies=[],
+             notes="nothing is left once the dispatcher consumed its two keys (`assert not d` is an obligation)")
+contract(FST, "strategy_from_dict", props=["C18"], lenient=True, aliases={"Any": Any},
+         params={"d": JD}, returns=Any,
+         raises=[("KeyError", 'not ("class_module" in d and "strategy_class" in d)')],
+         may_raise=["AssertionError"], asserts="raise", modifies=["*d"],
+         notes="the dispatch keys are consumed before delegating to the concrete class")
+
+_PK = ['"name"', '"initial_strats"', '"inferral_strats"', '"ver_strats"', '"expansion_strats"', '"symmetries"', '"iterative"']
+klass(FPK, "StrategyPack", fields={})
+contract(FPK, "StrategyPack.to_jsonable", props=["C18"], lenient=True, aliases={"Any": Any},
+         params={"self": Obj("StrategyPack")}, returns=JD, ensures=["fresh(result)", "keys_are(result, " + ", ".join(_PK) + ")"],
+         modifies=[], self_invariant=False)
+contract(FPK, "StrategyPack.from_dict", props=["C18"], lenient=True, aliases={"Any": Any},
+         params={"d": JD}, requires=["keys_are(d, " + ", ".join(_PK) + ")"], returns=Any, modifies=[],
+         notes="reads only keys the serialiser wrote: no KeyError on a serialised pack")
+
+contract(FSP, "CombinatorialSpecification.to_jsonable", props=["C18"], lenient=True, aliases={"Any": Any},
+         params={"self": Obj("CombinatorialSpecification")}, returns=JD,
+         ensures=["fresh(result)", 'keys_are(result, "root", "rules")'], may_raise=["StrategyDoesNotApply"],
+         modifies=["all:Obj('AbstractRule')"], self_invariant=False)
+contract(FSP, "CombinatorialSpecification.from_dict", props=["C18"], lenient=True, aliases={"Any": Any},
+         params={"d": JD}, requires=['keys_are(d, "root", "rules")'], returns=Any,
+         may_raise=["KeyError", "ValueError", "AssertionError"],
+         # the rules come back exactly as stored: equivalence paths are NOT regrouped on load
+         call_requires={"CombinatorialSpecification.__init__": ["not group_equiv"]},
+         modifies=["*d", "all:Dict(Str, Any)", "all:Obj('CombinatorialSpecification')"],
+         notes="KeyError can only come from a malformed nested rule dictionary")
